@@ -1272,29 +1272,22 @@ impl App {
         }
         .wrap_err("failed to parse data items")?;
 
-        let mut all_events = if let Some(extended_commit_info_with_proof) =
-            &expanded_block_data.extended_commit_info_with_proof
-        {
-            let extended_commit_info = extended_commit_info_with_proof.extended_commit_info();
-            self.metrics.record_extended_commit_info_bytes(
+        // The oracle prices carried in the block's extended commit info are applied further down,
+        // *after* the block's transactions have been executed (see below).  Copy out what is needed
+        // for that now, as `expanded_block_data` is consumed if the block is executed here.
+        let extended_commit_info = expanded_block_data
+            .extended_commit_info_with_proof
+            .as_ref()
+            .map(|extended_commit_info_with_proof| {
+                self.metrics.record_extended_commit_info_bytes(
+                    extended_commit_info_with_proof
+                        .encoded_extended_commit_info()
+                        .len(),
+                );
                 extended_commit_info_with_proof
-                    .encoded_extended_commit_info()
-                    .len(),
-            );
-            let mut state_tx: StateDelta<Arc<StateDelta<Snapshot>>> =
-                StateDelta::new(self.state.clone());
-            vote_extension::apply_prices_from_vote_extensions(
-                &mut state_tx,
-                extended_commit_info,
-                finalize_block.time.into(),
-                finalize_block.height.value(),
-            )
-            .await
-            .wrap_err("failed to apply prices from vote extensions")?;
-            self.apply(state_tx)
-        } else {
-            vec![]
-        };
+                    .extended_commit_info()
+                    .clone()
+            });
 
         // FIXME: refactor to avoid cloning the finalize block
         let finalize_block_arc = Arc::new(finalize_block.clone());
@@ -1378,6 +1371,32 @@ impl App {
             .await
             .wrap_err("failed to run post execute transactions handler")?;
         }
+
+        // Apply the oracle prices from the previous block's vote extensions.
+        //
+        // NOTE: this *must* happen at the same point relative to the block's transactions no matter
+        // which ABCI calls this node received for the block.  If the block was already executed
+        // during the proposal phase (`skip_execution == true`), its transactions have already been
+        // applied to `self.state`, hence the prices can only be applied after them.  So that a node
+        // which executes the block here (e.g. one that is syncing, was restarted, or which saw a
+        // different proposal) ends up with identical state, the prices are applied after the
+        // transactions in that case too.  This matters as transactions can add and remove currency
+        // pairs.
+        let mut all_events = if let Some(extended_commit_info) = &extended_commit_info {
+            let mut state_tx: StateDelta<Arc<StateDelta<Snapshot>>> =
+                StateDelta::new(self.state.clone());
+            vote_extension::apply_prices_from_vote_extensions(
+                &mut state_tx,
+                extended_commit_info,
+                finalize_block.time.into(),
+                finalize_block.height.value(),
+            )
+            .await
+            .wrap_err("failed to apply prices from vote extensions")?;
+            self.apply(state_tx)
+        } else {
+            vec![]
+        };
 
         let PostTransactionExecutionResult {
             events,
